@@ -142,6 +142,50 @@ fn rotation_fault_probe() -> Option<Failure> {
     Some(Failure { kind: "impl-vs-oracle", detail: format!("the fsync of the worker's journal rotation (journal past 64 MB) failed with EIO, yet afterwards these writes were acknowledged: {acked:?} (results {res:?}) - the database was not poisoned") })
 }
 
+/// turns the directory a child left behind into what a power loss leaves: every journal file is cut to the length
+/// covered by its own last successful sync, a journal file created after the last fsync of the folder is gone, the
+/// newest file keeps its preallocated length.  Returns the number of journal bytes known durable.
+fn power_loss_image(dir: &Path, run: &ChildRun, hist: &mut BTreeMap<String, u64>) -> u64 {
+    // bytes known durable, per journal file: everything written to it before its last successful sync
+    let mut written: BTreeMap<String, u64> = BTreeMap::new();
+    let mut synced: BTreeMap<String, u64> = BTreeMap::new();
+    for ((wh, _, res), file) in run.log.iter().zip(run.files.iter()) {
+        match wh.as_str() {
+            "write" => *written.entry(file.clone()).or_insert(0) += *res as u64,
+            "fsync" | "fdatasync" => { let wv = written.get(file).copied().unwrap_or(0); synced.insert(file.clone(), wv); }
+            _ => {}
+        }
+    }
+    // power loss: a journal file created during the run whose directory was not fsynced afterwards has no
+    // durable directory entry - it is gone as a whole
+    for (i, (_, ev)) in run.dir_events.iter().enumerate() {
+        if let Some(name) = ev.strip_prefix("create:") {
+            if !run.dir_events[i + 1..].iter().any(|(_, e)| e == "dirsync") {
+                let _ = std::fs::remove_file(dir.join(name));
+                *hist.entry("power-loss-journal-file-without-directory-entry".into()).or_insert(0) += 1;
+            }
+        }
+    }
+    // power loss: unsynced journal bytes are gone (the active file keeps its preallocated length)
+    let mut present: Vec<u64> = std::fs::read_dir(&dir).map(|d| d.filter_map(|e| e.ok()).filter_map(|e| e.file_name().to_str().and_then(|n| n.strip_suffix(".jnl").and_then(|x| x.parse().ok()))).collect()).unwrap_or_default();
+    present.sort();
+    let mut synced_total = 0u64;
+    for j in &present {
+        let name = format!("{j}.jnl");
+        let jp = dir.join(&name);
+        let data = std::fs::read(&jp).unwrap_or_default();
+        let sy = synced.get(&name).copied().unwrap_or(0);
+        synced_total += sy;
+        let keep = &data[..(sy as usize).min(data.len())];
+        std::fs::write(&jp, keep).unwrap();
+        if Some(j) == present.last() {
+            let f = std::fs::OpenOptions::new().write(true).open(&jp).unwrap();
+            f.set_len(64 * 1024 * 1024).unwrap();
+        }
+    }
+    synced_total
+}
+
 fn log_str(l: &[(String, u64, i64)]) -> String {
     l.iter().map(|(w, a, r)| match w.as_str() {
         "write" | "write-short" => format!("write:{a}:{r}"),
@@ -215,6 +259,20 @@ fn run_case(seed: u64, mode: &str, thorough: bool, lean: &mut Lean, hist: &mut B
     let content = jfiles.iter().map(|j| { let c = journal_content(&dir.join(format!("{j}.jnl"))); if c.is_empty() { "-".to_string() } else { hex(&c) } }).collect::<Vec<_>>().join("|");
     if !no_model() && content != model_file { fail!("model-vs-impl", "journal files differ from the writer model ({} vs {} chars over {} files)", content.len(), model_file.len(), jfiles.len()); }
     if w.ops.iter().any(|o| matches!(o, WOp::RotateJournal)) { *hist.entry("workloads-with-journal-rotation".into()).or_insert(0) += 1; }
+    if mode == "c09" {
+        // the database was dropped: a power loss now must leave every operation of the workload ("the same holds for
+        // data written ... before the database is dropped")
+        power_loss_image(&dir, &base, hist);
+        *hist.entry("power-loss-image-after-drop".into()).or_insert(0) += 1;
+        match dump(&dir, w.nks) {
+            Err(e) => fail!("impl-vs-oracle", "power loss after the database was dropped: reopening failed: {e}"),
+            Ok(got) => {
+                let mut st = vec![Map::new(); w.nks];
+                for op in &w.ops { apply(&mut st, op); }
+                if st != got { fail!("impl-vs-oracle", "power loss right after the database was dropped (all {} operations acknowledged, drop returned): the recovered content is not the final state - journal bytes written before the drop were not covered by a sync", w.ops.len()); }
+            }
+        }
+    }
     let nsys = base.log.len();
     *hist.entry(format!("syscalls/8={}", nsys / 8 * 8)).or_insert(0) += 1;
     *hist.entry(format!("manual={}", w.manual)).or_insert(0) += 1;
@@ -344,43 +402,7 @@ fn run_case(seed: u64, mode: &str, thorough: bool, lean: &mut Lean, hist: &mut B
                 let _ = std::fs::remove_dir_all(&img);
                 if mode == "c02" { continue; }
             }
-            // bytes known durable, per journal file: everything written to it before its last successful sync
-            let mut written: BTreeMap<String, u64> = BTreeMap::new();
-            let mut synced: BTreeMap<String, u64> = BTreeMap::new();
-            for ((wh, _, res), file) in run.log.iter().zip(run.files.iter()) {
-                match wh.as_str() {
-                    "write" => *written.entry(file.clone()).or_insert(0) += *res as u64,
-                    "fsync" | "fdatasync" => { let wv = written.get(file).copied().unwrap_or(0); synced.insert(file.clone(), wv); }
-                    _ => {}
-                }
-            }
-            // power loss: a journal file created during the run whose directory was not fsynced afterwards has no
-            // durable directory entry - it is gone as a whole
-            for (i, (_, ev)) in run.dir_events.iter().enumerate() {
-                if let Some(name) = ev.strip_prefix("create:") {
-                    if !run.dir_events[i + 1..].iter().any(|(_, e)| e == "dirsync") {
-                        let _ = std::fs::remove_file(dir.join(name));
-                        *hist.entry("power-loss-journal-file-without-directory-entry".into()).or_insert(0) += 1;
-                    }
-                }
-            }
-            // power loss: unsynced journal bytes are gone (the active file keeps its preallocated length)
-            let mut present: Vec<u64> = std::fs::read_dir(&dir).map(|d| d.filter_map(|e| e.ok()).filter_map(|e| e.file_name().to_str().and_then(|n| n.strip_suffix(".jnl").and_then(|x| x.parse().ok()))).collect()).unwrap_or_default();
-            present.sort();
-            let mut synced_total = 0u64;
-            for j in &present {
-                let name = format!("{j}.jnl");
-                let jp = dir.join(&name);
-                let data = std::fs::read(&jp).unwrap_or_default();
-                let sy = synced.get(&name).copied().unwrap_or(0);
-                synced_total += sy;
-                let keep = &data[..(sy as usize).min(data.len())];
-                std::fs::write(&jp, keep).unwrap();
-                if Some(j) == present.last() {
-                    let f = std::fs::OpenOptions::new().write(true).open(&jp).unwrap();
-                    f.set_len(64 * 1024 * 1024).unwrap();
-                }
-            }
+            let synced_total = power_loss_image(&dir, &run, hist);
             let synced = synced_total;
             let acked = run.results.len();
             // last acknowledged operation that synced
